@@ -81,3 +81,10 @@ Definition modelled_nilable_fields : list string :=
 Definition unmodelled_nilable : list string := filter (fun f => negb (mem f modelled_nilable_fields)) nilable_number_fields.
 Lemma nilable_fields_modelled : unmodelled_nilable = [].
 Proof. vm_compute. reflexivity. Qed.
+
+(* 6. signature helpers: every constant index read from the attacker's signature lies below the length the function's own
+      guard guarantees (EthAddressFromSignature / TronAddressFromSignature read signature[64] behind `len(signature) < 65`) *)
+Definition unguarded_indexes : list (string * string * string * nat * nat) :=
+  filter (fun e => let '(_, _, _, idx, minlen) := e in negb (Nat.ltb idx minlen)) gen_index_guards.
+Lemma signature_indexes_guarded : unguarded_indexes = [] /\ gen_index_guards <> [].
+Proof. split; [vm_compute; reflexivity | discriminate]. Qed.
